@@ -457,6 +457,7 @@ func schedGoroutines() (int, string) {
 }
 
 var hangAfter = flag.Duration("hang-after", 4*time.Second, "declare a hang when the caller has not returned after this long")
+var quiesceFor = flag.Duration("quiesce", 3*time.Second, "how long to wait for the loop and the workers to end after the caller returned")
 
 // stableDump reduces a goroutine dump to the multiset of scheduler frames, so
 // that two dumps can be compared for "nothing moved".
@@ -625,7 +626,7 @@ func runCase(c config, seed uint64) result {
 		res.WaitErr = []string{}
 	}
 	// quiescence: loop finished and every worker goroutine ended
-	deadline := time.Now().Add(3 * time.Second)
+	deadline := time.Now().Add(*quiesceFor)
 	for {
 		rec.mu.Lock()
 		starts, ends, fin := 0, 0, false
@@ -654,9 +655,15 @@ func runCase(c config, seed uint64) result {
 			}
 		}
 		if time.Now().After(deadline) {
+			_, d1 := schedGoroutines()
+			time.Sleep(200 * time.Millisecond)
 			g, dump := schedGoroutines()
+			if g == 0 {
+				break // they were only slow
+			}
 			res.LeakedG = g
 			res.Hang = dump
+			res.HangStable = stableDump(d1) == stableDump(dump)
 			break
 		}
 		time.Sleep(50 * time.Microsecond)
